@@ -69,3 +69,14 @@ ARITH = {
 BOOL_RESULT = {"OP_BOOLAND", "OP_BOOLOR", "OP_NUMEQUAL", "OP_NUMNOTEQUAL", "OP_LESSTHAN", "OP_GREATERTHAN", "OP_LESSTHANOREQUAL", "OP_GREATERTHANOREQUAL"}
 
 LIMITS = {"MAX_SCRIPT_LENGTH": 10000, "MAX_BLOB_LENGTH": 520, "MAX_OP_COUNT": 201, "MAX_STACK_SIZE": 1000}
+
+# stack diagrams of the pure stack-manipulation opcodes (script.h comments / interpreter.cpp):
+# name -> (number of inputs, outputs as indices into the input window, bottom first)
+STACK_EFFECTS = {
+    "OP_DROP": (1, []), "OP_DUP": (1, [0, 0]), "OP_NIP": (2, [1]), "OP_OVER": (2, [0, 1, 0]), "OP_ROT": (3, [1, 2, 0]),
+    "OP_SWAP": (2, [1, 0]), "OP_TUCK": (2, [1, 0, 1]), "OP_2DROP": (2, []), "OP_2DUP": (2, [0, 1, 0, 1]),
+    "OP_3DUP": (3, [0, 1, 2, 0, 1, 2]), "OP_2OVER": (4, [0, 1, 2, 3, 0, 1]), "OP_2ROT": (6, [2, 3, 4, 5, 0, 1]),
+    "OP_2SWAP": (4, [2, 3, 0, 1]),
+}
+HASH_OPS = {"OP_RIPEMD160": "ripemd160(stack.pop()).digest()", "OP_SHA1": "hashlib.sha1(stack.pop()).digest()", "OP_SHA256": "hashlib.sha256(stack.pop()).digest()",
+            "OP_HASH160": "hash160(stack.pop())", "OP_HASH256": "double_sha256(stack.pop())"}
